@@ -154,6 +154,8 @@ class TermRule(BaseRule):
                     return const(_fold_binop(node.op, a.val, b.val))
                 except Exception:
                     pass
+            if opn == "sub" and a.sym and a.sym == b.sym:
+                return const(0)  # x - x
             return tv(T(opn, term_of(a), term_of(b)), none=False)
         if isinstance(node, ast.UnaryOp) and isinstance(node.op, ast.USub) and len(avs) == 1:
             if avs[0].kind == "const" and isinstance(avs[0].val, (int, float)):
@@ -452,6 +454,11 @@ class TermRule(BaseRule):
                     return [Out("normal", st, const(len(pos[0].val)))]
                 except Exception:
                     pass
+            EMPTY = ("set()", "list()", "tuple()", "dict()", "frozenset()", "bytearray()")
+            if f.id == "len" and pos and pos[0].sym in EMPTY:
+                return [Out("normal", st, const(0))]
+            if f.id in ("set", "list", "tuple", "dict", "frozenset", "bytearray") and not pos and not kws:
+                return [Out("normal", st, AV("unk", sym=T(f.id), none=False, truth=False, typ=f"builtins.{f.id}"))]  # a fresh empty container
             typ = f"builtins.{f.id}" if f.id in ("str", "bytes", "int", "float", "list", "tuple", "set", "frozenset", "dict", "bytearray") else None
             return [Out("normal", st, AV("unk", sym=T(f.id, *[term_of(p) for p in pos], *kws), none=None if f.id in ("getattr", "next") else False, typ=typ))]
         if isinstance(f, ast.Attribute) and isinstance(f.value, ast.Name) and f.value.id == "typing" and f.attr == "cast" and len(pos) == 2:
